@@ -166,12 +166,16 @@ def plan(tier):
     n = 110 if tier == "quick" else 9000
     return [("mc", n * len(PLANS)), ("nesting", 3 * n), ("connections", 2 * n),
             ("bmp", 4 * n), ("inventory", 1), ("siblings", n // 2),
+            ("vocabulary", 8),
             ("deep", 6 if tier == "quick" else 120)]
 
 
 def gen(cls, idx, rng, tier):
     if cls == "inventory":
         return dict(kind="inventory")
+    if cls == "vocabulary":
+        return dict(kind="vocabulary", app=rng.choice([30, 66, 201, 255]),
+                    seed=rng.randrange(1 << 30))
     if cls == "siblings":
         return dict(kind="siblings", seed=rng.randrange(1 << 30),
                     a=dict(x=rng.randrange(3), y=rng.randrange(3),
@@ -775,6 +779,67 @@ def run_nesting(case, ctx):
     ctx.mark_nontrivial()
 
 
+# what the machine means by each number (sark.h / spinnaker_tools), written
+# out here: the caller names signals, states and LED actions by NAME
+SIGNALS = dict(init=0, power_down=1, stop=2, start=3, sync0=4, sync1=5,
+               pause=6, cont=7, exit=8, timer=9, usr0=10, usr1=11, usr2=12,
+               usr3=13)
+NN_SIGNALS = {"init", "power_down", "stop", "start", "exit"}   # others: MC
+STATES = dict(dead=0, power_down=1, runtime_exception=2, watchdog=3, init=4,
+              wait=5, c_main=6, run=7, sync0=8, sync1=9, pause=10, exit=11,
+              idle=15)
+
+
+def run_vocabulary(case, ctx):
+    r = fresh(case["seed"])
+    mc, app = r.mc, case["app"]
+    consts = importlib.import_module("rig.machine_control.consts")
+    for name, code in sorted(SIGNALS.items()):
+        for how in (name, getattr(consts.AppSignal, name, None), code):
+            if how is None:
+                check(False, "vocabulary", "no signal called %r" % name)
+            mark = len(r.net.log)
+            mc.send_signal(how, app_id=app)
+            d = [q for q in dests(sent(r, mark)) if q[1] == M.CMD["signal"]]
+            ctx.hit("signal_by_name")
+            check(len(d) == 1 and d[0][0] == (255, 255, 0) and
+                  d[0][2][0] == (2 if name in NN_SIGNALS else 0) and
+                  (d[0][2][1] >> 16) & 0xff == code and
+                  d[0][2][1] & 0xffff == 0xff00 | app,
+                  "signal-on-the-wire",
+                  "send_signal(%r, app_id=%d) sent %r; signal %r is number "
+                  "%d, carried by message type %d" %
+                  (how, app, [(q[0], [hex(a) for a in q[2]]) for q in d],
+                   name, code, 2 if name in NN_SIGNALS else 0))
+    for name, code in sorted(STATES.items()):
+        for how in (name, getattr(consts.AppState, name, None)):
+            if how is None:
+                check(False, "vocabulary", "no state called %r" % name)
+            mark = len(r.net.log)
+            mc.count_cores_in_state(how, app_id=app)
+            d = [q for q in dests(sent(r, mark)) if q[1] == M.CMD["signal"]]
+            ctx.hit("state_by_name")
+            check(len(d) == 1 and (d[0][2][1] >> 16) & 0xf == code and
+                  (d[0][2][1] >> 20) & 3 == 2 and
+                  d[0][2][1] & 0xffff == 0xff00 | app,
+                  "state-on-the-wire",
+                  "count_cores_in_state(%r, app_id=%d) sent %r; state %r is "
+                  "number %d" % (how, app, [[hex(a) for a in q[2]]
+                                            for q in d], name, code))
+    for action, code in ((True, 3), (False, 2), (None, 1)):
+        for led in range(4):
+            mark = len(r.net.log)
+            mc.set_led(led, action, x=1, y=2)
+            d = [q for q in dests(sent(r, mark)) if q[1] == M.CMD["led"]]
+            ctx.hit("led_action")
+            check(len(d) == 1 and d[0][0] == (1, 2, 0) and
+                  d[0][2][0] == code << (2 * led), "led-on-the-wire",
+                  "set_led(%d, %r) sent %r (on=3, off=2, toggle=1, two bits "
+                  "per LED)" % (led, action, [[hex(a) for a in q[2]]
+                                              for q in d]))
+    ctx.mark_nontrivial()
+
+
 def run_siblings(case, ctx):
     """Several controller objects in one process (an application talking to
     its machine through two of them, or to two machines): what one of them
@@ -1102,6 +1167,8 @@ def run(case, ctx):
         run_deep(case, ctx)
     elif k == "siblings":
         run_siblings(case, ctx)
+    elif k == "vocabulary":
+        run_vocabulary(case, ctx)
     elif k == "connections":
         run_connections(case, ctx)
     elif k == "bmp":
